@@ -28,6 +28,9 @@ NAN_TAGS = ("neg of -inf", "inf + -inf", "0 * -inf")
 
 class Stats:
     def __init__(self):
+        self.xcheck_agree = 0
+        self.xcheck_disagree = 0
+        self.xcheck_inconclusive = 0
         self.queries = 0
         self.solver_s = 0.0
         self.unsat = 0
@@ -180,6 +183,41 @@ def explore(fn, max_paths=64, setup=None):
     return out
 
 
+_XC = {"n": 0}
+
+
+def _cross_check(solver, verdict):
+    """second solver: every N-th decided query is exported with to_smt2() and re-decided by the cvc5 binary"""
+    import os
+    import subprocess
+    import tempfile
+    every = int(os.environ.get("VERIF_CROSSCHECK_EVERY", "0") or 0)
+    if not every:
+        return
+    _XC["n"] += 1
+    if _XC["n"] % every:
+        return
+    try:
+        text = "(set-logic ALL)\n" + solver.to_smt2()
+        with tempfile.NamedTemporaryFile("w", suffix=".smt2", delete=False, dir=os.environ.get("TMPDIR", "/tmp")) as f:
+            f.write(text)
+            path = f.name
+        try:
+            r = subprocess.run(["cvc5", "--tlimit=10000", "--nl-ext-tplanes", path], capture_output=True, text=True, timeout=30)
+            out = (r.stdout + r.stderr).strip().splitlines()
+        finally:
+            os.remove(path)
+        ans = out[0].strip() if out else ""
+        if any("(error" in line for line in out) or ans not in ("sat", "unsat"):
+            STATS.xcheck_inconclusive += 1
+        elif ans == verdict:
+            STATS.xcheck_agree += 1
+        else:
+            STATS.xcheck_disagree += 1
+    except Exception:
+        STATS.xcheck_inconclusive += 1
+
+
 def check_valid(hyps, goal, timeout_ms=None):
     """Is `hyps |= goal` ?  returns (verdict, model|None, seconds); verdict in {'unsat','sat','unknown'} of hyps & !goal"""
     s = z3.Solver()
@@ -189,6 +227,8 @@ def check_valid(hyps, goal, timeout_ms=None):
     t0 = time.time()
     r = _check(s)
     dt = time.time() - t0
+    if r in (z3.sat, z3.unsat):
+        _cross_check(s, "sat" if r == z3.sat else "unsat")
     if r == z3.unsat:
         STATS.unsat += 1
         return "unsat", None, dt
